@@ -201,3 +201,203 @@ func (x *c02ctx) r7() {
 		r.Errorf("R02.7: only %d direct-store sites found in cfg (5 confirmed by reading)", n)
 	}
 }
+
+// R02.8: the "store directly into the result slot" optimisation of cfg. The operand of a
+// return statement may write into the frame's result area while it is evaluated only if no
+// other operand can read that slot afterwards: a single returned value, or unnamed results
+// (which no expression can name). With named results and several operands,
+// `return y+1, x+1` would overwrite x before x+1 is evaluated.
+func (x *c02ctx) r8() {
+	ic, r := x.ic, x.r
+	cfgFn := ic.fn(r, "Interpreter.cfg")
+	if cfgFn == nil {
+		return
+	}
+	findex := ic.field("node", "findex")
+	kind := ic.field("node", "kind")
+	anc := ic.field("node", "anc")
+	child := ic.field("node", "child")
+	if findex == nil || kind == nil || anc == nil || child == nil {
+		r.Errorf("anchor not resolved: fields findex/kind/anc/child of node")
+		return
+	}
+	isConst := func(e ast.Expr, name string) bool {
+		id, ok := unparen(e).(*ast.Ident)
+		if !ok {
+			return false
+		}
+		c, ok := ic.Info.Uses[id].(*types.Const)
+		return ok && c.Name() == name
+	}
+	// atoms under the assumption: the parent is a return statement with several operands,
+	// in a function whose results are named.
+	var atom func(e ast.Expr) int
+	mentionsReturn := false
+	depth := 0
+	atom = func(e ast.Expr) int {
+		switch v := e.(type) {
+		case *ast.BinaryExpr:
+			if v.Op == token.EQL || v.Op == token.NEQ {
+				res := triUnknown
+				// X.anc.kind == returnStmt
+				if selField(ic.Info, v.X) == kind && isConst(v.Y, "returnStmt") {
+					if se, ok := unparen(v.X).(*ast.SelectorExpr); ok && selField(ic.Info, se.X) == anc {
+						mentionsReturn = true
+						res = triTrue
+					}
+				}
+				// len(X.anc.child) == 1
+				if c, ok := unparen(v.X).(*ast.CallExpr); ok && len(c.Args) == 1 {
+					if id, ok := c.Fun.(*ast.Ident); ok && id.Name == "len" && selField(ic.Info, c.Args[0]) == child {
+						if tv, ok := ic.Info.Types[v.Y]; ok && tv.Value != nil && tv.Value.ExactString() == "1" {
+							res = triFalse
+						}
+					}
+				}
+				if res != triUnknown && v.Op == token.NEQ {
+					res = 1 - res
+				}
+				return res
+			}
+			if v.Op == token.GTR || v.Op == token.LSS || v.Op == token.GEQ || v.Op == token.LEQ {
+				// len(X.anc.child) > 1 and its spellings
+				if c, ok := unparen(v.X).(*ast.CallExpr); ok && len(c.Args) == 1 {
+					if id, ok := c.Fun.(*ast.Ident); ok && id.Name == "len" && selField(ic.Info, c.Args[0]) == child {
+						if tv, ok := ic.Info.Types[v.Y]; ok && tv.Value != nil {
+							switch {
+							case v.Op == token.GTR && tv.Value.ExactString() == "1", v.Op == token.GEQ && tv.Value.ExactString() == "2":
+								return triTrue
+							case v.Op == token.LSS && tv.Value.ExactString() == "2", v.Op == token.LEQ && tv.Value.ExactString() == "1":
+								return triFalse
+							}
+						}
+					}
+				}
+			}
+		case *ast.CallExpr:
+			f, ok := calleeOf(ic.Info, v).(*types.Func)
+			if !ok || f.Pkg() != ic.Pk.Types {
+				return triUnknown
+			}
+			if canonKey(f.Pkg(), shortKey(objKey(f))) == "interp.mustReturnValue" {
+				return triFalse // results are named
+			}
+			// a helper whose body is a single return of a boolean expression: evaluate it
+			if fi := ic.G.Funcs[f]; fi != nil && fi.Decl.Body != nil && len(fi.Decl.Body.List) == 1 && depth < 2 {
+				if rs, ok := fi.Decl.Body.List[0].(*ast.ReturnStmt); ok && len(rs.Results) == 1 {
+					depth++
+					res := evalCond(rs.Results[0], atom)
+					depth--
+					return res
+				}
+			}
+		}
+		return triUnknown
+	}
+	n := 0
+	seen := map[string]int{}
+	ast.Inspect(cfgFn.Decl.Body, func(nd ast.Node) bool {
+		as, ok := nd.(*ast.AssignStmt)
+		if !ok || as.Tok != token.ASSIGN {
+			return true
+		}
+		isF := false
+		for _, l := range as.Lhs {
+			if selField(ic.Info, l) == findex {
+				isF = true
+			}
+		}
+		if !isF {
+			return true
+		}
+		guards := pathGuards(cfgFn.Decl.Body, as)
+		// is this site under a "parent is a return statement" condition (positively)?
+		under := false
+		infeasible := ""
+		for _, g := range guards {
+			mentionsReturn = false
+			v := evalCond(g.cond, atom)
+			if mentionsReturn && g.want {
+				under = true
+			}
+			if (g.want && v == triFalse) || (!g.want && v == triTrue) {
+				if infeasible == "" {
+					infeasible = types.ExprString(g.cond)
+				}
+			}
+		}
+		if !under {
+			return true
+		}
+		n++
+		where := ""
+		for _, p := range enclosingPath(cfgFn.Decl.Body, as) {
+			if cc, ok := p.(*ast.CaseClause); ok && where == "" && len(cc.List) > 0 {
+				if id, ok := cc.List[0].(*ast.Ident); ok {
+					if _, isC := ic.Info.Uses[id].(*types.Const); isC {
+						where = id.Name
+					}
+				}
+			}
+		}
+		key := fmt.Sprintf("cfg/case:%s/return-direct-store", where)
+		seen[key]++
+		key = fmt.Sprintf("%s#%d", key, seen[key])
+		// the slot is the one of the operand's own position
+		if tv, ok := ic.Info.Types[as.Rhs[0]]; ok && tv.Value != nil {
+			r.Check(infeasible != "", "R02.8", key+"/slot-index", ic.pos(as.Pos()), "constant slot, but only a single operand can reach this store",
+				"the operand of a return statement is stored at the constant result slot "+tv.Value.ExactString()+" whatever its position in the return statement: in return 7, len(s) the builtin call overwrites the first result and the second one is never set")
+		}
+		r.Check(infeasible != "", "R02.8", key, ic.pos(as.Pos()), "excluded for several operands with named results by "+infeasible,
+			"an operand of a return statement writes straight into the frame's result area ("+types.ExprString(as.Lhs[0])+" = "+types.ExprString(as.Rhs[0])+") also when several values are returned from a function with named results: in func f() (x, y int) { ...; return y + 1, x + 1 } the first operand overwrites x before the second one reads it")
+		return true
+	})
+	if n < 5 {
+		r.Errorf("R02.8: only %d direct stores into the result area found in cfg (6 confirmed by reading)", n)
+	}
+	// run-time generators take the slot cfg decided (n.findex); a generator that derives the
+	// result slot from the operand's position bypasses the decision above
+	nGen, nBad := 0, 0
+	for _, name := range sortedKeys(ic.F) {
+		fi := ic.F[name]
+		if fi.Decl.Body == nil || fi.Obj == nil || fi.Decl.Recv != nil {
+			continue
+		}
+		sig := fi.Obj.Type().(*types.Signature)
+		if sig.Params().Len() != 1 || sig.Results().Len() != 0 || !isNamedPtr(sig.Params().At(0).Type(), "node") {
+			continue
+		}
+		nGen++
+		for _, c := range callsIn(ic.Info, fi.Decl.Body, true, "interp.childPos") {
+			excluded := false
+			for _, g := range pathGuards(fi.Decl.Body, c) {
+				v := evalCond(g.cond, atom)
+				if (g.want && v == triFalse) || (!g.want && v == triTrue) {
+					excluded = true
+				}
+			}
+			if excluded {
+				r.Pass("R02.8", name+"/slot-from-position", ic.pos(c.Pos()), "the position is used as the slot only where a direct store into the result area is allowed")
+				nBad++ // counted: the summary obligation below is for the zero case only
+				continue
+			}
+			nBad++
+			r.Fail("R02.8", name+"/slot-from-position", ic.pos(c.Pos()), "the run-time generator "+name+" derives a frame slot from the operand's position (childPos) instead of using the slot allotted by cfg (n.findex): for a return with several operands and named results the call writes over a result that a later operand still reads")
+		}
+	}
+	if nGen < 50 {
+		r.Errorf("R02.8: only %d run-time generators (func(*node)) found", nGen)
+	}
+	if nBad == 0 {
+		r.Pass("R02.8", "generators/slot-from-findex", "", fmt.Sprintf("%d run-time generators, none calls childPos", nGen))
+	}
+}
+
+func isNamedPtr(t types.Type, name string) bool {
+	p, ok := t.(*types.Pointer)
+	if !ok {
+		return false
+	}
+	n, ok := p.Elem().(*types.Named)
+	return ok && n.Obj().Name() == name
+}
